@@ -4,6 +4,6 @@ MCN == {3, 4}
 MCGaps(n) == IF n <= 3 THEN {1, 2} ELSE {1, 3}
 MCYs(n) == IF n <= 3 THEN {-3, 0, 1, 2} ELSE {-2, 1}
 MCY2(n) == {[i \in 1..n |-> IF i = j THEN 1 ELSE 0] : j \in {1, n - 1}} \cup {[i \in 1..n |-> i * i - 3]}
-MCOff == {-1}
+MCOff(n) == {-1}
 MCMul == {-2}
 ====
